@@ -34,7 +34,8 @@ NOT_COVERED = ["termination (an endless EINTR storm spins forever)", "size < 0 f
                "but 'it is the first occurrence' is proved only for CRLF and the 7-byte ElastiCache token (symbolic-token VC undecided "
                "by z3 and cvc5 within budget; clause withdrawn, not assumed)"]
 BUDGET = {"quick": 40, "thorough": 180}
-DEPENDS = ["C19"]      # the ElastiCache configuration reader is the caller of _readsegment with the multi-byte end token
+REPLAY_OUT_OF_REACH = True
+DEPENDS = ["C19", "C04"]      # the ElastiCache configuration reader is the caller of _readsegment with the multi-byte end token
 CRLF = z3.StringVal("\r\n")
 CR = z3.StringVal("\r")
 
@@ -384,6 +385,16 @@ def replay(ob, res):
     """Segmentation independence replayed on the real reader: the model's stream (and a small corpus around
     it) is delivered in every 0/1/2-cut segmentation, with and without EINTR, and compared with one piece."""
     from pyvc import replay as rp
+    if "out-of-reach" in ob.id or "bounded-exploration" in ob.id:
+        # stand-in for a reader that left the verifier's reach: the corpus below through all three readers and both end tokens
+        import types
+        from pyvc.sym import Obligation
+        for rd, tok in (("_readline", None), ("_readvalue", None), ("_readsegment", "CRLF"), ("_readsegment", "ElastiCache-END")):
+            sub_ob = Obligation("C03/stand-in/" + rd, ["C03"], [], z3.BoolVal(True), meta={"reader": rd, "token": tok})
+            r = replay(sub_ob, types.SimpleNamespace(model={}))
+            if r.get("reproduced"):
+                return r
+        return {"reproduced": False, "searched": "segmentation corpus through _readline, _readvalue, _readsegment"}
     reader = ob.meta.get("reader") or ("_" + (ob.func or "").split(":_")[-1] if ob.func else None)
     if reader not in ("_readline", "_readvalue", "_readsegment"):
         if ob.func and ob.func.endswith("_recv"):
